@@ -200,6 +200,19 @@ def check_augmented_operand_order(model: RepoModel, rep, RID: str, rels: Iterabl
                     for wo, wi, wb in writes:
                         if rb == wb == here and here is not None and wo == wop and tuple(norm(wi[k]) for k in WRITE_OPS[wo] if k in wi) == place and norm(wi["source"]) == T:
                             old.add(norm(ri["target"]))
+                # read-modify-write: what is written back to the place is the UPDATED value (this statement's target), not the value read
+                for rop, ri, rb in reads:
+                    if rb != here or here is None or norm(ri["target"]) not in (A, B):
+                        continue
+                    wop = rop.replace("_read", "_write")
+                    place = tuple(norm(ri[k]) for k in READ_OPS[rop] if k in ri)
+                    for wo, wi, wb in writes:
+                        if wb == here and wo == wop and tuple(norm(wi[k]) for k in WRITE_OPS[wo] if k in wi) == place and norm(wi["source"]) == norm(ri["target"]) \
+                                and T != norm(ri["target"]):
+                            n += 1
+                            rep.violation(RID, f"{rel}::{f.qualname}::`{wop}({', '.join(place)}) <- {norm(wi['source'])}`::the updated value is written back", rel, d.lineno,
+                                          f"{f.qualname} lowers `place op= e` as: read the place into `{norm(ri['target'])}`, compute `{T} = {A} <op> {B}`, then write "
+                                          f"`{norm(wi['source'])}` -- the value that was READ -- back to the place: the update is lost (`a[i] += v` leaves a[i] unchanged)")
                 if not old or ((A in old) == (B in old)):
                     continue
                 n += 1
@@ -701,4 +714,44 @@ def check_mark_before_recursion(model: RepoModel, rep, RID: str, rels: Iterable[
                                       f"{c.lineno} on a path that has not yet entered anything into `{M}` "
                                       f"({' -> '.join(cfg.describe_path(path)[-6:])}): on a cyclic object graph (a.next = b; b.next = a) the descent returns to "
                                       f"the same key while it is still unmarked and recurses without end")
+    return n
+
+
+# ------------------------------------------------------------------------------------------------------------------ L9
+def check_vacuous_conditions(model: RepoModel, rep, RID: str, rels: Iterable[str]) -> int:
+    """L9: `E != a or E != b` (a, b different) can only be false when a == b, `E == a and E == b` can only be true when a == b: as a
+    test of "E is neither a nor b" / "E is a or b" it is a De Morgan slip that makes the guarded branch unconditional (or dead).
+    Instances: every and/or with two or more (in)equalities; expected count of violations on a healthy tree: zero."""
+    n = 0
+    for rel in rels:
+        mod = model.module(rel)
+        for f in mod.all_funcs():
+            for b in walk_no_nested(f.node):
+                if not isinstance(b, ast.BoolOp):
+                    continue
+                want = ast.NotEq if isinstance(b.op, ast.Or) else ast.Eq
+                if len([v for v in b.values if isinstance(v, ast.Compare) and len(v.ops) == 1 and isinstance(v.ops[0], (ast.Eq, ast.NotEq))]) < 2:
+                    continue
+                n += 1
+                cmps = [v for v in b.values if isinstance(v, ast.Compare) and len(v.ops) == 1 and isinstance(v.ops[0], want)]
+                seen: Dict[str, Tuple[str, ast.AST]] = {}
+                bad = None
+                for v in cmps:
+                    for e, o in ((v.left, v.comparators[0]), (v.comparators[0], v.left)):
+                        if isinstance(e, ast.Constant) or (isinstance(e, ast.UnaryOp) and isinstance(e.operand, ast.Constant)):
+                            continue
+                        k = norm(e)
+                        if k in seen and seen[k][0] != norm(o):
+                            bad = (e, seen[k][1], o)
+                        seen.setdefault(k, (norm(o), o))
+                key = f"{rel}::{f.qualname}::`{norm(b)[:90]}`::not vacuous"
+                if bad:
+                    e, o1, o2 = bad
+                    always = "true" if isinstance(b.op, ast.Or) else "false"
+                    rep.violation(RID, key, rel, b.lineno,
+                                  f"`{norm(b)[:120]}` compares `{norm(e)}` with both `{norm(o1)}` and `{norm(o2)}` under `{'or' if isinstance(b.op, ast.Or) else 'and'}`: "
+                                  f"it is {always} whenever `{norm(o1)}` and `{norm(o2)}` differ, so the branch it guards is "
+                                  f"{'taken unconditionally' if always == 'true' else 'dead'} (a De Morgan slip: `and` / `or` exchanged)")
+                else:
+                    rep.holds(RID, key, rel, b.lineno, "the compared expressions differ")
     return n
